@@ -126,6 +126,28 @@ def gen_cancelled_futures(rng, sid):
     return sc
 
 
+def gen_rejected_records(rng, sid):
+    """some send() calls are rejected by the record builder (str value / key without a serializer, malformed
+    headers -> TypeError; the application catches it and carries on): nothing was accepted for them, and every
+    other record - on any partition - is delivered and resolved as usual"""
+    sc = gen(rng, sid)
+    sc["idempotent"] = True if rng.random() < 0.7 else sc["idempotent"]
+    sc.pop("stop_early", None)
+    nbad = 0
+    for t in sc["tasks"]:
+        for it in t:
+            if "rid" in it and rng.random() < 0.3:
+                it["bad"] = rng.choice(["str_value", "str_value", "str_key", "headers"])
+                nbad += 1
+    if not nbad:
+        for t in sc["tasks"]:
+            for it in t:
+                if "rid" in it:
+                    it["bad"] = "str_value"
+                    return sc
+    return sc
+
+
 def gen_parked_stop(rng, sid):
     """stop() while send() calls are parked on a full batch that cannot be drained (its partition has a batch in
     flight): whatever send() returned a future for must still be resolved; a parked send() may only raise"""
@@ -329,6 +351,8 @@ def run(ck: Check):
         scs.append(gen_nonretriable(rng, 200000 + i))
     for i in range(ck.n(40, 400)):
         scs.append(gen_cancelled_futures(rng, 300000 + i))
+    for i in range(ck.n(40, 400)):
+        scs.append(gen_rejected_records(rng, 400000 + i))
     results = prodsim.run_scenarios(scs, timeout=ck.n(600, 2400))
     nbad = 0
     hist = {"acks0": 0, "idempotent": 0, "produce_version_cap": {}, "log_append_time": 0, "flush": 0, "failed_runs": 0}
